@@ -190,6 +190,11 @@ class Machine:
         self.resolver = resolver
         self.depth = depth
         self.ev = AbsEval(ops)
+        if getattr(ops, "ev", None) is None:
+            try:
+                ops.ev = self.ev  # (operations that have to evaluate a sub-expression themselves: ``f(*triple)``)
+            except AttributeError:
+                pass
         self.max_steps = max_steps
         self.max_outcomes = max_outcomes
         self.forked = False  # did any step have more than one successor (an uninterpreted condition / outcome)?
